@@ -242,6 +242,7 @@ class Ctx:
         self.rtol = rtol
         self.atol_rel = atol_rel
         self.faces_as_cycles = faces_as_cycles
+        self.frame_invariants = False
         self.skip = set(skip)
         self.notes = []
 
@@ -360,6 +361,40 @@ def _face_perm(fa, fb):
 
 
 PER_FACE = ("equations", "normals", "face_centroids", "get_face_area")
+# Polygon observables that depend on the arbitrary in-plane frame coxeter picks
+# for a polygon that does not lie in the xy-plane (kabsch on a rank-1 problem:
+# a 1-ulp change of the normal changes the in-plane axes completely).
+# planar_moments_inertia documents this; Polygon.inertia_tensor inherits it
+# because it rotates diag(0, 0, Iz) with the matrix instead of its transpose
+# (a pure-function defect, C04 territory).  Between an object and a *fresh*
+# object (whose normal is re-normalised) only frame invariants are compared.
+FRAME_DEPENDENT = ("planar_moments_inertia", "inertia_tensor", "distance_to_surface")
+
+
+def _tilted(snap):
+    """True for a polygon snapshot whose normal is not exactly +-z."""
+    e = snap.get("normal")
+    if not e or e[0] != "ok":
+        return False
+    nrm = np.asarray(e[1], float)
+    return not (nrm.shape == (3,) and nrm[0] == 0 and nrm[1] == 0)
+
+
+def _frame_invariant_cmp(name, va, vb, ctx):
+    if name == "distance_to_surface":
+        return ""
+    a, b = np.asarray(va, float), np.asarray(vb, float)
+    if a.shape != b.shape:
+        return "shape %s vs %s" % (a.shape, b.shape)
+    if name == "planar_moments_inertia":
+        ia = np.array([a[0] + a[1], a[0] * a[1] - a[2] ** 2])
+        ib = np.array([b[0] + b[1], b[0] * b[1] - b[2] ** 2])
+        ok1, why1 = _num_close(ia[0], ib[0], ctx.rtol, ctx.atol(name))
+        ok2, why2 = _num_close(ia[1], ib[1], ctx.rtol * 10, ctx.atol(name) ** 2
+                               + ctx.rtol * 10 * (a[0] + a[1]) ** 2)
+        return "" if (ok1 and ok2) else "rotation invariants differ: %s %s" % (why1, why2)
+    ok, why = _num_close(np.trace(a), np.trace(b), ctx.rtol, ctx.atol(name))
+    return "" if ok else "trace differs: " + why
 
 
 def _diff(a, b, ctx, prefix=""):
@@ -437,6 +472,8 @@ def _diff(a, b, ctx, prefix=""):
                 r = "neighbour pairs differ"
             else:
                 r = _dihedral_cmp([t[2] for t in va], [t[2] for t in vb], ctx)
+        elif n in FRAME_DEPENDENT and ctx.frame_invariants and _tilted(a):
+            r = _frame_invariant_cmp(n, va, vb, ctx)
         elif n == "repr":
             r = ""  # textual; its ingredients are compared numerically
         elif n == "gsd_shape_spec":
@@ -467,6 +504,7 @@ def length_scale(*snaps):
 def diff_equiv(a, b, nbase=0, faces_as_cycles=False, skip=(), rtol=1e-6, atol_rel=1e-9):
     ctx = Ctx(length_scale(a, b), rtol, atol_rel, faces_as_cycles, skip)
     ctx.nbase = nbase
+    ctx.frame_invariants = True
     return _diff(a, b, ctx)
 
 
